@@ -193,6 +193,17 @@ func scenarioC10(c *hlib.RunCtx) *hlib.Violation {
 			}
 		}
 	}
+	pageRace := t.Bool(1, 5)
+	if pageRace {
+		// Names of nearly a quarter of a page each, enough of them for several
+		// pages: one writer may grow the file by whole pages while another is
+		// between placing its record and extending the file for it.
+		pool = pool[:0]
+		for i, n := 0, 8+t.Draw(6); i < n; i++ {
+			pool = append(pool, fmt.Sprintf("P%02d/", i)+strings.Repeat(string(rune('a'+i)), 3400+t.Draw(690)))
+		}
+		s.Probe("page-race-pool")
+	}
 	model := map[string]uint64{}
 
 	// Optionally start from a file written by the independent encoder.
@@ -230,6 +241,11 @@ func scenarioC10(c *hlib.RunCtx) *hlib.Violation {
 		maxOps = 16
 	}
 	chooseStrategy(c, s, 500)
+	if pageRace && t.Bool(2, 3) {
+		// stall a writer at one of its file-system calls or at a compare-and-swap
+		// of the allocation limit while the others carry on
+		s.SetDelayRange([]string{"fs:", "CompareAndSwap @file.go"}, 1+t.Rng.Intn(2), 24, 100, 700)
+	}
 	installQuarantine(w, c)
 	lastLimit := map[string]uint32{}
 	s.AfterStep = func(tk *simrt.Task) {
@@ -258,6 +274,9 @@ func scenarioC10(c *hlib.RunCtx) *hlib.Violation {
 	var sampleOps []string
 	for sess := 0; sess < sessions && w.viol == nil; sess++ {
 		nprocs := 1 + t.Biased(3, 2, 3)
+		if pageRace {
+			nprocs = 2 + t.Draw(2)
+		}
 		var procs []*proc
 		for i := 0; i < nprocs; i++ {
 			p := &proc{p: s.NewProc(fmt.Sprintf("s%dp%d", sess, i), nil), f: counter.VerifNewFile(bi)}
@@ -269,6 +288,9 @@ func scenarioC10(c *hlib.RunCtx) *hlib.Violation {
 			}
 			procs = append(procs, p)
 			nops := 1 + t.Draw(maxOps)
+			if pageRace {
+				nops += 4
+			}
 			var ops []op
 			for k := 0; k < nops; k++ {
 				ops = append(ops, op{idx: t.Draw(len(pool)), n: int64(1 + t.Draw(9))})
